@@ -66,11 +66,23 @@ pub fn encode(name: &str, is_table: bool) -> String {
 
 /// Determines if a name will work as CFB stream name once encoded.
 pub fn is_valid(name: &str, is_table: bool) -> bool {
-    if name.is_empty() || (!is_table && name.starts_with(TABLE_PREFIX)) {
+    if name.is_empty()
+        || (!is_table && name.starts_with(TABLE_PREFIX))
+        || name.chars().any(is_reserved)
+    {
         false
     } else {
         encode(name, is_table).encode_utf16().count() <= 31
     }
+}
+
+/// Returns true for characters that no stream or table name can contain:
+/// the characters that CFB reserves in entry names, and the code points that
+/// name encoding itself produces (stored as they are, they would be decoded
+/// into other characters).
+fn is_reserved(ch: char) -> bool {
+    matches!(ch, '/' | '\\' | ':' | '!')
+        || (0x3800..0x4840).contains(&(ch as u32))
 }
 
 // ========================================================================= //
